@@ -8,8 +8,13 @@ import argparse
 import importlib
 import json
 import os
+import faulthandler
+import signal
 import sys
 import traceback
+
+
+faulthandler.register(signal.SIGUSR1, all_threads=True)      # kill -USR1 <pid>: where is a (worker) process right now
 
 
 def main():
